@@ -1218,3 +1218,16 @@ def _makedirs(I, st, pos, kws, node):
     st.ghost.setdefault("fs_actions", []).append(("makedirs", pos[0]))
     res.append((st, NONE))
     return res
+
+
+
+@libfn("builtins.super")
+def _super(I, st, pos, kws, node):
+    cls = st.frame.clsqual
+    selfv = st.env.get("self")
+    if cls is None or selfv is None or pos:
+        raise EngineError("super() outside a method")
+    mro = I.modules.class_mro(cls)
+    if len(mro) < 2:
+        raise EngineError(f"super(): {cls} has no repository base class")
+    return [(st, FunV("super", selfv=selfv, parent=mro[1][2], name="super"))]
